@@ -33,10 +33,39 @@ class _Canon(ast.NodeTransformer):
 
     def visit_Assign(self, node):
         self.generic_visit(node)
+        if isinstance(node.value, ast.IfExp) and len(node.targets) == 1:
+            v = node.value
+            mk = lambda val: ast.copy_location(ast.Assign(targets=[clone(node.targets[0])], value=val), node)
+            return ast.copy_location(ast.If(test=v.test, body=[mk(v.body)], orelse=[mk(v.orelse)]), node)
+        inner = [n for n in ast.walk(node.value) if isinstance(n, ast.IfExp)]
+        if len(inner) == 1 and len(node.targets) == 1 and not any(isinstance(n, (ast.Lambda, ast.ListComp, ast.DictComp, ast.SetComp, ast.GeneratorExp)) for n in ast.walk(node.value)):
+            # one conditional sub-expression: lift it to a statement-level branch
+            ife = inner[0]
+
+            def with_branch(branch):
+                class R(ast.NodeTransformer):
+                    def visit_IfExp(self, n):
+                        return clone(branch) if n is ife_copy[0] else n
+                val = clone(node.value)
+                ife_copy[0] = [n for n in ast.walk(val) if isinstance(n, ast.IfExp)][0]
+                return R().visit(val)
+            ife_copy = [None]
+            a = with_branch(ife.body)
+            b = with_branch(ife.orelse)
+            mk = lambda val: ast.copy_location(ast.Assign(targets=[clone(node.targets[0])], value=val), node)
+            return ast.copy_location(ast.If(test=clone(ife.test), body=[mk(a)], orelse=[mk(b)]), node)
         if len(node.targets) == 1 and isinstance(node.targets[0], ast.Name) and isinstance(node.value, ast.BinOp) \
                 and isinstance(node.value.left, ast.Name) and node.value.left.id == node.targets[0].id \
                 and isinstance(node.value.op, (ast.Add, ast.Sub, ast.Mult, ast.Div)):
             return ast.copy_location(ast.AugAssign(target=ast.Name(id=node.targets[0].id, ctx=ast.Store()), op=node.value.op, value=node.value.right), node)
+        return node
+
+    def visit_Return(self, node):
+        self.generic_visit(node)
+        if isinstance(node.value, ast.IfExp):
+            v = node.value
+            return ast.copy_location(ast.If(test=v.test, body=[ast.copy_location(ast.Return(value=v.body), node)],
+                                            orelse=[ast.copy_location(ast.Return(value=v.orelse), node)]), node)
         return node
 
     def visit_If(self, node):
